@@ -28,7 +28,22 @@ class SPEC:
             "implementation's observation of every cell. No cell is expected to fail. The cells of the former finding D11 (dtls x ServerName "
             "{unset, 127.0.0.1, 10.1.1.1} x a certificate of the trusted CA not valid for the expected name/address; repaired by 90a2eb6) are "
             "additionally ANCHORED: they must be refused (init-err), and dtls x trusted certificate x ServerName {unset, localhost, 127.0.0.1} "
-            "must be accepted and deliver, whatever the model says. Every cell is non-trivial; distinct by hash of the op.")
+            "must be accepted and deliver, whatever the model says. Every cell is non-trivial; distinct by hash of the op. "
+            "op `tls resume <transport> <peer> <first> <second>`: every cell above starts a FRESH collector, so no session is ever resumed "
+            "there; this op keeps ONE collector (server certificate issued by CA 1 for localhost / 127.0.0.1) up and creates two exporters "
+            "IN THE SAME PROCESS one after the other: exporter A (trust settings <first> = <ca1|ca2>-<servername>: CAData = that CA only, "
+            "that ServerName) is initialised, sends its template message, is left connected for 300 ms with CheckConnInterval = 5 ms (so that "
+            "TLS 1.3 session tickets are read) and is closed; then exporter B (<second>) is initialised and sends its message. Observation = "
+            "`<A's outcome> ; <B's outcome>` (messages told apart by observation domain). tls: <peer> = real (library collector, TLS 1.3) | "
+            "srv12 | srv13 (raw crypto/tls server with that MaxVersion; session tickets as crypto/tls hands them out by default); dtls: <peer> = "
+            "srv12, a raw pion/dtls server WITH a SessionStore (pion/dtls v2.2.12 resumes only when both ends configure a SessionStore; the "
+            "library's DTLS collector sets none and accepts a single connection, so it cannot be the collector of this op). The model predicts "
+            "each exporter's outcome from the EXISTING decision function applied to that exporter's own configuration (Ipfix.TLS.resume; "
+            "Props.C18.resume_independent: B's outcome does not depend on A), the observation must EQUAL it, and Spec.C18.holdsOnResume fails "
+            "when an exporter completes a session its own CA / ServerName do not allow (e.g. B, configured with CA 2 only, resuming the session "
+            "A established). Controls (both exporters configured with CA 1 and a matching name) are ANCHORED to `init-ok delivered` twice. The "
+            "harness runs the resume ops first, one at a time, before the worker pool starts (a shared session cache would be keyed by host / "
+            "server name, and concurrent cells towards 127.0.0.1 would evict the session under test). Client certificates are not varied here.")
     assumptions = [
         "crypto/tls, crypto/x509 and pion/dtls v2 enforce the configuration they are given, with the semantics written down in "
         "Model/TLSDecision.lean (assumed; observed over the whole matrix on every run, not proved); in particular pion calls "
@@ -104,10 +119,38 @@ def op(t, sc, sn, cc, ca, p):
     return "tls cell %s %s %s %s %s %s" % (t, sc, sn, cc, ca, p)
 
 
+RESUME_PEERS = [("tls", "real"), ("tls", "srv12"), ("tls", "srv13"), ("dtls", "srv12")]
+GOOD_NAMES = ["unset", "dns", "ip"]
+
+
+def resume_op(t, p, first, second):
+    return "tls resume %s %s %s %s" % (t, p, first, second)
+
+
+def gen_resume(thorough):
+    """(op, label): sequences of two exporters of one process towards one collector"""
+    out = []
+    for t, p in RESUME_PEERS:
+        label = "%s-resume-%s" % (t, p)
+        if not thorough:
+            # control, the other CA under the same session-cache key (host resp. server name), and the other CA after a refused first exporter
+            pairs = [("ca1-unset", "ca1-unset"), ("ca1-unset", "ca2-unset"), ("ca1-dns", "ca2-dns"), ("ca2-unset", "ca2-unset")]
+            if p != "real":
+                pairs += [("ca1-unset", "ca2-ip"), ("ca1-dns", "ca1-baddns")]
+        else:
+            firsts = ["ca1-" + n for n in GOOD_NAMES] + ["ca2-unset"]
+            seconds = ["%s-%s" % (ca, n) for ca in ("ca1", "ca2") for n in SERVER_NAMES]
+            pairs = [(a, b) for a in firsts for b in seconds]
+        out.extend((resume_op(t, p, a, b), label) for a, b in pairs)
+    return out
+
+
 def gen_cases(tier):
     cases = []
     add = lambda o, label: cases.append(Case([o], label, True, True))
     thorough = tier == "thorough"
+    for o, label in gen_resume(thorough):
+        add(o, label)
     # plaintext peers first: the DTLS exporter against a silent plaintext listener gives up only after pion's 30 s
     # connect timeout, so these cells are started first and overlap with everything else
     for sn in (SERVER_NAMES if thorough else ["unset", "dns"]):
@@ -177,8 +220,30 @@ def anchor(o):
     return None
 
 
+def is_resume(o):
+    return o.startswith("tls resume ")
+
+
+def resume_anchor(o):
+    """controls of the resume ops: both exporters are configured with the issuing CA and a name the certificate is valid for"""
+    f = o.split(" ")
+    if not is_resume(o) or len(f) != 6:
+        return None
+    (ca_a, sn_a), (ca_b, sn_b) = f[4].split("-"), f[5].split("-")
+    if ca_a == ca_b == "ca1" and sn_a in GOOD_NAMES and sn_b in GOOD_NAMES:
+        one = "init-ok delivered" + (" v=" + f[3][3:] if f[2] == "tls" and f[3].startswith("srv") else "")
+        return one + " ; " + one
+    return None
+
+
+def well_formed_one(o):
+    return o == "init-err" or o.startswith("init-ok delivered") or o.startswith("init-ok not-delivered")
+
+
 def well_formed(o):
-    return o == "init-err" or o.startswith("init-ok delivered") or o.startswith("init-ok not-delivered") or o == "na"
+    if " ; " in o:
+        return all(well_formed_one(x) for x in o.split(" ; "))
+    return well_formed_one(o) or o == "na"
 
 
 def run(ctx):
@@ -201,9 +266,21 @@ def run(ctx):
             if rep == 0:
                 dist.add(c.label)
                 seen.add(G.case_hash(c.ops))
-            dist.add("outcome:" + " ".join(i.split(" ")[:2]))
+            if is_resume(c.ops[0]) and " ; " in i:
+                dist.add("outcome:resume-second:" + " ".join(i.split(" ; ")[1].split(" ")[:2]))
+            else:
+                dist.add("outcome:" + " ".join(i.split(" ")[:2]))
             if i != m:
                 disagreements.append({"case": ci, "rep": rep, "ops": c.ops, "impl": i, "model": m, "label": c.label})
+            want = resume_anchor(c.ops[0])
+            if want is not None:
+                dist.add("anchor:resume-control-accepted" + (":ok" if i == want else ":FAILED"))
+                if i != want and well_formed(i):
+                    anchor_failures.append({"signature": "C18:%s-resume:anchor:control-refused" % c.ops[0].split(" ")[2], "ops": c.ops, "impl": i,
+                                            "model": m, "label": c.label, "rep": rep,
+                                            "predicate": {"name": "gen.c18.resume_anchor", "value": "expected " + want},
+                                            "note": "control of the resume ops (both exporters trust the issuing CA): expected '%s', the "
+                                                    "implementation shows '%s'" % (want, i)})
             want = anchor(c.ops[0])
             if want is not None:
                 dist.add("anchor:" + ("former-D11-refused" if want == "init-err" else "dtls-valid-name-accepted") + (":ok" if i == want else ":FAILED"))
@@ -227,10 +304,13 @@ def run(ctx):
             c = cases[ci]
             why = v.replace("fails ", "").replace(" ", "-")
             t = c.ops[0].split(" ")[2]
-            sig = "C18:%s:%s" % (t, why)
+            resume = is_resume(c.ops[0])
+            sig = "C18:%s%s:%s" % (t, "-resume" if resume else "", why)
+            pred = "Ipfix.C18.holdsOnResume" if resume else "Ipfix.C18.holdsOn"
             failures.append({"signature": sig, "ops": c.ops, "impl": impl[ci][0], "model": model[ci][0], "label": c.label, "rep": rep,
-                             "predicate": {"name": "Ipfix.C18.holdsOn", "value": v},
-                             "note": "Spec.C18.holdsOn on the implementation's observation of the cell: " + v})
+                             "predicate": {"name": pred, "value": v},
+                             "note": "Spec.C18.%s on the implementation's observation of the %s: %s" % (
+                                 pred.split(".")[-1], "two exporters" if resume else "cell", v)})
         if rep == 0:
             picks = [0, len(cases) // 5, len(cases) // 3, len(cases) // 2, len(cases) - 1]
             samples = [{"ops": cases[k].ops, "impl": impl[k], "model": model[k], "label": cases[k].label} for k in picks]
@@ -253,7 +333,8 @@ def run(ctx):
             kept.append(f)
     uniq = kept
     facts = check.run_ops(ctx.driver, ["tls facts"])[0]
-    notes = ["matrix: %d cells (%s), %d repetition(s); every cell compared with the model's outcome and checked against Spec.C18.holdsOn" % (
+    notes = ["matrix: %d cells and resume sequences (%s), %d repetition(s); each compared with the model's outcome and checked against "
+             "Spec.C18.holdsOn / holdsOnResume" % (
         len(cases), ", ".join("%s %d" % (k, v) for k, v in sorted(dist.items()) if not k.startswith(("outcome:", "predicate:", "anchor:"))), reps),
         PRUNING_NOTE,
         "configurations the model read off Generated/TLS.lean: " + (facts[0] if facts else "missing"),
@@ -264,7 +345,17 @@ def run(ctx):
     n_acc = sum(1 for c in cases if anchor(c.ops[0]) == "init-ok delivered")
     notes.append("former finding D11 (repaired by 90a2eb6): %d cells (dtls x ServerName unset/127.0.0.1 x wrong SAN/no SAN, ServerName 10.1.1.1 x "
                  "trusted/wrong SAN/no SAN) anchored to init-err, %d cells (dtls x trusted x ServerName unset/localhost/127.0.0.1) anchored to "
-                 "init-ok delivered; failed anchors: %d" % (n_d11, n_acc, sum(v for k, v in dist.items() if k.startswith("anchor:") and k.endswith(":FAILED"))))
+                 "init-ok delivered; failed anchors: %d" % (n_d11, n_acc, sum(v for k, v in dist.items()
+                                                                if k.startswith("anchor:") and not k.startswith("anchor:resume") and k.endswith(":FAILED"))))
+    n_res = sum(1 for c in cases if is_resume(c.ops[0]))
+    n_res_other = sum(1 for c in cases if is_resume(c.ops[0]) and c.ops[0].split(" ")[4].startswith("ca1-") and c.ops[0].split(" ")[5].startswith("ca2-"))
+    notes.append("resume sequences (two exporters of one process, one collector): %d, of which %d have a first exporter configured with the "
+                 "issuing CA and a second one configured with the other CA only (the second must be refused: no session of the first may be "
+                 "resumed), %d controls anchored to 'init-ok delivered' twice; failed control anchors: %d" % (
+                     n_res, n_res_other, sum(1 for c in cases if resume_anchor(c.ops[0]) is not None),
+                     sum(v for k, v in dist.items() if k.startswith("anchor:resume") and k.endswith(":FAILED"))))
+    if n_res_other < 8:
+        uniq.append({"signature": "C18:resume:missing-sequences", "ops": [], "note": "only %d resume sequences with the other CA second" % n_res_other})
     if n_d11 != 56 or n_acc != 24:
         failures_note = "anchor cells missing from the matrix: %d/56 former-D11, %d/24 must-accept" % (n_d11, n_acc)
         notes.append(failures_note)
